@@ -144,7 +144,7 @@ class Path:
             _CH_RUN = True
         with native():
             STATS.paths += 1
-            if STATS.paths % 20 == 0:
+            if STATS.paths <= 3 or STATS.paths % 10 == 0:
                 STATS.dump()
         return self
 
